@@ -82,12 +82,12 @@ namespace nop {
 // Encoding type that handles non-integral element types. Logical buffers of
 // non-integral element types are encoded the same as non-integral arrays using
 // the ARRAY encoding.
-template <typename BufferType, typename SizeType, bool IsUnbounded>
+template <typename BufferType, typename SizeMemberType, bool IsUnbounded>
 struct Encoding<
-    LogicalBuffer<BufferType, SizeType, IsUnbounded>,
+    LogicalBuffer<BufferType, SizeMemberType, IsUnbounded>,
     EnableIfNotIntegral<typename ArrayTraits<BufferType>::ElementType>>
-    : EncodingIO<LogicalBuffer<BufferType, SizeType, IsUnbounded>> {
-  using Type = LogicalBuffer<BufferType, SizeType, IsUnbounded>;
+    : EncodingIO<LogicalBuffer<BufferType, SizeMemberType, IsUnbounded>> {
+  using Type = LogicalBuffer<BufferType, SizeMemberType, IsUnbounded>;
   using ValueType = std::remove_const_t<typename Type::ValueType>;
   enum : std::size_t { Length = Type::Length };
 
@@ -153,11 +153,11 @@ struct Encoding<
 // Encoding type that handles integral element types. Logical buffers of
 // integral element types are encoded the same as arrays with integral elements
 // using the BINARY encoding.
-template <typename BufferType, typename SizeType, bool IsUnbounded>
-struct Encoding<LogicalBuffer<BufferType, SizeType, IsUnbounded>,
+template <typename BufferType, typename SizeMemberType, bool IsUnbounded>
+struct Encoding<LogicalBuffer<BufferType, SizeMemberType, IsUnbounded>,
                 EnableIfIntegral<typename ArrayTraits<BufferType>::ElementType>>
-    : EncodingIO<LogicalBuffer<BufferType, SizeType, IsUnbounded>> {
-  using Type = LogicalBuffer<BufferType, SizeType, IsUnbounded>;
+    : EncodingIO<LogicalBuffer<BufferType, SizeMemberType, IsUnbounded>> {
+  using Type = LogicalBuffer<BufferType, SizeMemberType, IsUnbounded>;
   using ValueType = std::remove_const_t<typename Type::ValueType>;
   enum : std::size_t { Length = Type::Length };
 
